@@ -57,8 +57,8 @@ class Gen:
         self.rnd, self.pool = rnd, pool
         self.kinds = kinds or ["none", "bool", "int", "float", "str", "any", "list", "set", "frozenset", "vtuple",
                                "tuple", "mapping", "optional", "union", "literal", "enum", "newtype",
-                               "cint", "cfloat", "cstr", "clist", "cdict", "dataclass", "dataclass", "namedtuple", "typeddict"]
-    LEAVES = ["none", "bool", "int", "float", "str", "any", "literal", "enum", "cint", "cfloat", "cstr"]
+                               "cint", "cfloat", "cstr", "clist", "cdict", "merged", "dataclass", "dataclass", "namedtuple", "typeddict"]
+    LEAVES = ["none", "bool", "int", "float", "str", "any", "literal", "enum", "cint", "cfloat", "cstr", "merged"]
     def ty(self, depth):
         r = self.rnd
         k = r.choice(self.kinds if depth > 0 else [k for k in self.kinds if k in self.LEAVES])
@@ -92,6 +92,26 @@ class Gen:
     def g_cstr(self, d):
         ch = [("min_len", 1, 1), ("max_len", 2, 2)] + [("pattern", repr(src), proto) for proto, src in PATTERNS]
         return self._cons("cstr", ["str"], "str", ch)
+    CONS = {
+        "int": (["int"], "int", [("min", 0, ["i", "0"]), ("max", 10, ["i", "10"]), ("exc_min", 0, ["i", "0"]), ("exc_max", 5, ["i", "5"]),
+                                  ("mult_of", 2, ["i", "2"]), ("max", 0, ["i", "0"]), ("min", -1, ["i", "-1"])]),
+        "float": (["float"], "float", [("min", 0, ["i", "0"]), ("max", 2.5, ["f", "5/2"]), ("exc_min", 0.5, ["f", "1/2"]), ("exc_max", 5, ["i", "5"]),
+                                        ("mult_of", 0.25, ["f", "1/4"]), ("max", 0, ["i", "0"]), ("exc_min", 0, ["i", "0"])]),
+        "str": (["str"], "str", [("min_len", 1, 1), ("max_len", 2, 2), ("min_len", 0, 0), ("max_len", 0, 0), ("pattern", repr("^a"), ["prefix", "a"])]),
+    }
+    def g_merged(self, d):
+        """two constraint sets merged for one type: a NewType carrying a schema, annotated again at the use site"""
+        base = self.rnd.choice(["int", "float", "str"])
+        blean, bpy, table = self.CONS[base]
+        (n1, v1, p1) = self.rnd.choice(table)
+        others = [c for c in table if c[0] != n1]
+        (n2, v2, p2) = self.rnd.choice(others)
+        nt = self.pool.fresh("NTC_")
+        decl = [f"{nt} = NewType('{nt}', Annotated[{bpy}, schema({n1}={v1})])"]
+        self.pool.add(decl)
+        inner = Node("c" + base, ["ann", {n1: p1}, blean], f"Annotated[{bpy}, schema({n1}={v1})]", cons=(n1, v1))
+        ntn = Node("newtype", ["newtype", nt, inner.lean], nt, [inner], decl=decl)
+        return Node("c" + base, ["ann", {n2: p2}, ntn.lean], f"Annotated[{nt}, schema({n2}={v2})]", [ntn], cons=(n2, v2), merged=True)
     def g_clist(self, d):
         t = self.ty(d - 1)
         name, val, proto = self.rnd.choice([("min_items", 1, 1), ("max_items", 2, 2), ("unique", True, True)])
